@@ -206,7 +206,13 @@ def handle (req : Json) : R Json := do
   let ann ← (← jlist (jgetD req "ann" (.arr #[]))).mapM fun nt => do
     let a ← jlist nt
     return (← jstr (← jidx a 0), ← (← jlist (← jidx a 1)).mapM jnat)
-  match construct s args kwargs (ann := ann) with
+  -- `init_suspended`: the Buildable is constructed inside `with suspend_tracking():` (no entry may
+  -- be logged, no sequence number drawn); tracking is on again for the operations that follow
+  let susp := match req.getObjVal? "init_suspended" with
+    | .ok (.bool b) => b
+    | _ => false
+  match (construct s args kwargs (tracking := !susp) (ann := ann)).map
+      (fun c => if susp then { c with tracking := true } else c) with
   | none => return mkObj [("init", errJson), ("steps", .arr #[])]
   | some c0 =>
     let initObs := observe s c0
